@@ -47,6 +47,7 @@ type FuncContract struct {
 }
 
 type CaseContract struct {
+	AssumePre bool // like the function flag, for this case only
 	Replay   []*Clause
 	Name     string
 	Guard    *Node
@@ -328,7 +329,11 @@ func (c *Contracts) parseFile(path string) error {
 			if err != nil {
 				return fmt.Errorf("%s: %v", it.pos, err)
 			}
-			curCase = &CaseContract{Name: strings.TrimSpace(rest[:i]), Guard: g, Props: props}
+			cname, cassume := strings.TrimSpace(rest[:i]), false
+			if fs := strings.Fields(cname); len(fs) == 2 && fs[1] == "assumepre" {
+				cname, cassume = fs[0], true
+			}
+			curCase = &CaseContract{Name: cname, Guard: g, Props: props, AssumePre: cassume}
 			curFunc.Cases = append(curFunc.Cases, curCase)
 		case "requires", "ensures", "assert", "replay":
 			if curFunc == nil {
